@@ -138,6 +138,9 @@ class _LocalFn:
         self.node = node
         self.env = env  # shared with the enclosing evaluation (late binding, as in Python)
 
+    def __call__(self, *args: Any) -> Any:
+        return self.call(_CURRENT[-1], list(args))
+
     def call(self, f: "Folder", args: list) -> Any:
         from .absint import Evaluator, body_without_docstring_
 
